@@ -9,6 +9,7 @@ BASELINE_OFF = ("cd /repo && GOFLAGS=-mod=mod go test -json -vet=off -count=1 -t
 HOOK_COMMITS = [
     "7c06555",  # container/verif_hooks.go: ring buffer raw accessor
     "6d9c0df",  # container/iterable/verif_hooks.go, container/lru/verif_hooks.go: list statistics accessors
+    "d42f800",  # kvs/distlock/verif_hooks.go: lease period setter
 ]
 
 # id -> dict(text, note, technique, design_ref)
@@ -76,6 +77,33 @@ CHECKS["C19"] = dict(
          "Texts containing the full embed marker and wrapping applied after GRPCWrap are outside the property and not exercised.",
     technique="TLA+ contract + table-driven model with constants probed from the compiled code, TLC invariant check, per-edge behaviour replay on the real functions, TLC trace validation",
     design_ref="DESIGN.md section 4, C19")
+
+CHECKS["C01"] = dict(
+    text="KvLock.tla models the protocol of kvlock.go at storage-call granularity (token channel, lckCntr, Create / ErrExist / "
+         "WaitForVersionChange loop, unconditional Delete in Unlock, cancellation and shutdown races as separate internal steps, "
+         "request-lost and reply-lost faults, expiry of unowned records). TLC exhausts it for 2 callers x 2 calls, 2 callers sharing a "
+         "locker and 3 callers (0.3-1 M states each) and proves mutual exclusion, 'the holder's record is in the store' and token/counter "
+         "consistency. The command history of every transition of the smaller configurations is played as a schedule on REAL kvsLock "
+         "objects over a gated kvs.Storage facade of a real in-memory store; seeded random schedules (2-4 callers) and ungated stress "
+         "(in-memory and Redis/miniredis) add depth. Every recorded history is validated by TLC against the contract LockTrace.tla "
+         "(acquire only while nobody holds). Bounded exhaustive on the model, conformance on the code; not a proof for N callers.",
+    note="Assumes leases of live holders are renewed in time and a release reaches the store within the remaining lease; the one history "
+         "outside that (late Delete after lease expiry) is reproduced on the real code and recorded as known finding F-C01-late-delete. "
+         "Trusted: TLC, LockTrace.tla, the harness's event order (one mutex), the in-memory store as the storage.",
+    technique="TLA+ protocol spec model-checked by TLC, TLC-generated schedules replayed on real objects through a gated storage, TLC trace validation against a contract spec",
+    design_ref="DESIGN.md section 4, C01")
+CHECKS["C04"] = dict(
+    text="Same KvLock.tla model and schedules as C01, with the residue/hand-off contract enforced: TLC checks on the model NoResidue (all idle "
+         "=> every token back, every counter 0, no record unless a request/reply was lost), NoLateAcquire (no acquisition by a call invoked "
+         "after Shutdown), NoLostWakeup (a blocked caller with the lock free always has an enabled step) and, under weak fairness, Progress "
+         "(blocked ~> holding or left). On the real objects every schedule (cancellation before the call / during the token wait / during the "
+         "storage wait, shutdown, faults) is followed by a drain and quiescence probes (record read from the backing store, TryLock/Unlock on "
+         "every locker); LockTrace.tla rejects a wrong return value, an acquisition after the context ended or after Shutdown, a stuck "
+         "caller, a leftover record, a locker that cannot be acquired again.",
+    note="A stuck verdict needs 4 s without progress while nothing is held/pending/expirable. Calls parked in the storage wait at Shutdown are "
+         "not constrained. Trusted: TLC, LockTrace.tla, harness event order, in-memory store.",
+    technique="TLA+ protocol spec with safety + liveness checked by TLC, TLC-generated schedules replayed on real objects through a gated storage, TLC trace validation",
+    design_ref="DESIGN.md section 4, C04")
 
 
 PENDING_REASON = "check not built yet in this round; the TLA+ design for it is in DESIGN.md section 4"
